@@ -35,6 +35,7 @@ def run(rep: Report, tier: str) -> None:
 	rule_b(rep, idx)
 	rule_c(rep, idx)
 	rule_d(rep, idx)
+	rule_e(rep, idx)
 
 
 def rule_a(rep: Report, idx: SourceIndex) -> None:
@@ -247,3 +248,25 @@ def rule_d(rep: Report, idx: SourceIndex) -> None:
 				else:
 					r.ok(key, (rel, n.lineno))
 	rep.extra_coverage['memo_sites'] = n_sites
+
+
+def rule_e(rep: Report, idx: SourceIndex) -> None:
+	"""children / siblings are defined on the entry tree: one AST level below `via`, resp. the other entries one level below via's AST parent.
+	Node-level navigation (parent(), which skips tags without a node class) must not be mixed in, or the queries disagree with the tree."""
+	r = rep.rule('C10/structural-queries-on-entry-tree', 'Nodes.children / Nodes.siblings list entries from the path index (group_by of via, resp. of EntryPath(via).shift(-1)) filtered by depth, without going through node-level parent()/ancestor()', floor=4)
+	m = idx.mod('rogw/tranp/syntax/node/query.py')
+	rep.consulted(m.relpath)
+	for name, base_expr, delta in (('children', 'via', 1), ('siblings', 'EntryPath(via).shift(-1)', 0)):
+		f = m.func(f'Nodes.{name}')
+		src = unparse(f.node)
+		nav = [unparse(n)[:50] for n in ast.walk(f.node) if isinstance(n, ast.Call) and isinstance(n.func, ast.Attribute) and isinstance(n.func.value, ast.Name) and n.func.value.id == 'self' and n.func.attr in ('parent', 'ancestor', 'children', 'siblings', 'expand')]
+		r.check(not nav, f'{name}:no-node-navigation', f.where, f'Nodes.{name} goes through node-level navigation {nav}: parent() skips entry layers that have no node class (function_def_raw, typedparam, ...), so the result is a different layer than the tree\'s {name}', src[:160])
+		gb = [n for n in ast.walk(f.node) if isinstance(n, ast.Call) and isinstance(n.func, ast.Attribute) and n.func.attr == 'group_by']
+		ok = False
+		for g in gb:
+			a0 = unparse(g.args[0]) if g.args else ''
+			if name == 'children':
+				ok = ok or a0 == 'via'
+			else:
+				ok = ok or ('uplayer' in a0 or 'shift(-1)' in a0)
+		r.check(bool(gb) and ok, f'{name}:entry-index', f.where, f'Nodes.{name} no longer lists entries with __entries.group_by over {"via" if name == "children" else "the AST parent path EntryPath(via).shift(-1)"}', src[:160])
